@@ -18,7 +18,7 @@ import (
 // Plan ops: {K:"msg", T:conn, X:hex, S:kind} (conn 0: the stream under test, conn 1: a
 // well-behaved neighbour); {K:"cuts", N:[len1, delay1_ns, len2, delay2_ns, ...]} how the
 // concatenation of conn 0's messages is delivered; {K:"reads", N:[sizes]} short reads
-// at the collector's socket; {K:"trunc", A:n} client closes after n bytes of the stream.
+// at the collector's socket; {K:"trunc", A:n, B:1 at once / 0 two hours later} client closes after n bytes of the stream.
 
 func init() {
 	register(&Prop{
@@ -192,7 +192,7 @@ func genC11(seed uint64, tier string) *plan.Plan {
 		pl.Ops = append(pl.Ops, plan.Op{K: "reads", N: sizes})
 	}
 	if badAt < 0 && r.IntN(5) == 0 {
-		pl.Ops = append(pl.Ops, plan.Op{K: "trunc", A: int64(r.IntN(total + 1))})
+		pl.Ops = append(pl.Ops, plan.Op{K: "trunc", A: int64(r.IntN(total + 1)), B: int64(r.IntN(2))})
 	}
 	genSchedule(r, pl, 2, 3000)
 	return pl
@@ -211,6 +211,7 @@ func runC11(pl *plan.Plan, out *plan.Outcome) {
 	var kinds [2][]string
 	var cuts, reads []int64
 	trunc := -1
+	closeAtOnce := false
 	for _, op := range pl.Ops {
 		switch op.K {
 		case "msg":
@@ -224,6 +225,7 @@ func runC11(pl *plan.Plan, out *plan.Outcome) {
 			reads = op.N
 		case "trunc":
 			trunc = int(op.A)
+			closeAtOnce = op.B != 0
 		}
 	}
 	var stream []byte
@@ -334,6 +336,13 @@ func runC11(pl *plan.Plan, out *plan.Outcome) {
 			} else if rerr != nil {
 				closeErr = rerr.Error()
 			}
+			c.Close()
+			return
+		}
+		if closeAtOnce {
+			// the client is gone as soon as it has written what it writes: whatever the collector has
+			// not yet dealt with (a consumer that is not taking anything) is still in the stream
+			env.Count("fault.client_closes_right_after_its_last_byte", 1)
 			c.Close()
 			return
 		}
